@@ -13,6 +13,7 @@ pub mod c05;
 pub mod c06;
 pub mod c07;
 pub mod c08;
+pub mod c09;
 pub mod c14;
 pub mod c15;
 pub mod c18;
@@ -49,6 +50,9 @@ table! {
     c07::h_roundtrip,
     c08::h_edits,
     c08::h_completed,
+    c09::h_cuts,
+    c09::h_chunks,
+    c09::h_malformed,
     c03::h_laws2,
     c03::h_trans,
     c03::h_api_laws,
